@@ -169,3 +169,18 @@ PROPS["C11"] = dict(
     trusted=VM_TRUSTED,
     assumptions=[],
 )
+
+PROPS["C12"] = dict(
+    modules=["Essential.Props.C12"],
+    gen=gen_vm.c12_cases,
+    project=vm_project, nontrivial=vm_nontrivial, classify=vm_classify, model_is_spec=True,
+    exhaustive="PredicateData slot x offset x length grid (7x8x8) for 3 solutions; Sha256 byte lengths 0..71 (quick) / 0..200 (thorough), all residues mod 8",
+    rule="cases: PredicateData/Len/Slots over every slot/offset/length from the boundary grid, ThisAddress/ThisContractAddress at "
+         "the stack limit, PredicateExists with the true hash of every solution and perturbed pre-images, Sha256 for every byte "
+         "length, ed25519 / secp256k1 vectors produced by the sign crate and ed25519-dalek with corrupted keys, signatures, messages "
+         "and recovery ids (incl. ids equal mod 2^32); the model's primitives are the reference answers of the hash/sign crates; the "
+         "oracle recomputes each result with essential_hash / essential_sign directly; non-trivial = distinct case that succeeds or "
+         "fails after marshalling",
+    trusted=VM_TRUSTED + ["SHA-256 in the Lean driver is unverified code validated against sha2 on every run; ed25519/secp256k1 answers are tables computed by the harness with ed25519-dalek / libsecp256k1 (the primitives are parameters of the model)"],
+    assumptions=["correctness of SHA-256, ed25519 and ECDSA recovery themselves is outside the statement (the property is agreement with the hash/sign crates)"],
+)
